@@ -107,6 +107,10 @@ func (w *world) canonDict(d map[string]any) any {
 			r[k] = "T"
 			continue
 		}
+		if k == "transport" && v == nil {
+			r[k] = map[string]any{} // an empty Go map arrives as null through a serializer
+			continue
+		}
 		r[k] = w.canonValue(v)
 	}
 	return r
@@ -325,6 +329,9 @@ func sortedKeys(m map[string]any) []string {
 // at any depth (answers of meta procedures list ids in map order).
 func sortIntLists(v any) any {
 	switch x := v.(type) {
+	case nil:
+		// an empty Go slice arrives as null through a serializer and as [] in-process
+		return []any{}
 	case []any:
 		all := len(x) > 0
 		for i := range x {
@@ -390,18 +397,29 @@ func relevant(prop string, m []any) bool {
 }
 
 func canonLines(lines []Line, metaReq map[string]bool) []Line {
-	return canonLinesFor("", lines, metaReq)
+	return canonLinesFor("", lines, metaReq, nil, nil)
 }
 
-func canonLinesFor(prop string, lines []Line, metaReq map[string]bool) []Line {
+// lazy: sessions attached through a real transport. When exactly such a client sees its
+// connection closed is a matter of transport timing (the peers wait up to a second to hand
+// over a last message), so their closure is not compared step by step; they count as gone
+// from the step in which they are sent ABORT/GOODBYE or drop their connection (dropAt).
+func canonLinesFor(prop string, lines []Line, metaReq map[string]bool, lazy map[string]bool, dropAt map[int][]string) []Line {
 	rn := &renumber{}
 	gone := map[string]bool{}
 	res := make([]Line, len(lines))
 	for i, l := range lines {
-		nl := Line{Out: map[string][][]any{}, Closed: l.Closed, Panic: l.Panic, Note: l.Note, Sizes: l.Sizes}
+		nl := Line{Out: map[string][][]any{}, Panic: l.Panic, Note: l.Note, Sizes: l.Sizes}
 		for _, k := range l.Closed {
 			gone[fmt.Sprint(k)] = true
+			if !lazy[fmt.Sprint(k)] {
+				nl.Closed = append(nl.Closed, k)
+			}
 		}
+		for _, k := range dropAt[i] {
+			gone[k] = true
+		}
+		goneAfter := []string{}
 		keys := make([]string, 0, len(l.Out))
 		for k := range l.Out {
 			keys = append(keys, k)
@@ -414,6 +432,9 @@ func canonLinesFor(prop string, lines []Line, metaReq map[string]bool) []Line {
 				code := int(num(m[0]))
 				if gone[k] && code != 3 && code != 6 {
 					continue
+				}
+				if lazy[k] && (code == 3 || code == 6) {
+					goneAfter = append(goneAfter, k)
 				}
 				if code != 3 && code != 6 && !relevant(prop, m) {
 					continue
@@ -434,6 +455,9 @@ func canonLinesFor(prop string, lines []Line, metaReq map[string]bool) []Line {
 			for j := range nl.Out[k] {
 				nl.Out[k][j] = rn.value(any(nl.Out[k][j])).([]any)
 			}
+		}
+		for _, k := range goneAfter {
+			gone[k] = true
 		}
 		res[i] = nl
 	}
